@@ -332,7 +332,8 @@ def replay_and_validate(run, vh, behaviours, label, jvms=8):
 def replay_file(run, args):
     d = json.load(open(args.replay))
     vh = run.build_harness()
-    run.model_check("GenHub", gen_cfg("mc", ALL_CMDS, slots=(1, 2), ns=(1, 2), maxid=2, maxheld=1, buf=2, filters=("",)), label="GenHub(contract model, small)")
+    run.model_check("GenHub", gen_cfg("mc", [c for c in ALL_CMDS if c != "delunknown"], slots=(1, 2), ns=(2,), maxid=2, maxheld=1, buf=2, filters=("",)),
+                    label="GenHub(contract model, small)")
     replay_and_validate(run, vh, [d["behaviour"]], "replay")
     run.cov["distinct_nontrivial"] = 1
     run.cov["samples"] = [d["behaviour"].get("_abs", {})]
@@ -408,6 +409,10 @@ def c15(run, args):
     pick = lambda xs: xs[len(xs) // 2]["steps"][:14] if xs else []
     run.cov["samples"] = [pick(hist), pick(live), pick(sched), pick(sim)]
     replay_and_validate(run, vh, beh, "c15")
+    # (6) the whole server: server.FullAssembly driven only through SMTP, POP3, REST and real WebSocket monitor connections,
+    #     judged against the composed contract Inbucket.tla (what every monitor is owed across all interfaces)
+    from checks import e2e
+    e2e.stage(run, vh, quick, "C15")
     run.cov["rule"] = ("TLC enumerates, each to the stated depth and completely: (history) every sequence of dispatch to 2 mailboxes / delete of any stored or of an unknown "
                        "message / join of a v1 or v2 socket listener with or without mailbox filter or of a mock (also one that fails from its first call), history length 1..3; "
                        "(live) with listener sets attached first, every sequence of dispatch / delete / take / disconnect with however many events are buffered / leave / fail; "
@@ -427,5 +432,6 @@ def c15(run, args):
                         "a listener that answers with an error during the history playback of its own join may be kept until it fails in a broadcast (the code ignores that error)",
                         "what a listener that has left or failed was handed before is not constrained; only that nothing dispatched after its departure reaches it",
                         "a mock failure is persistent (every call from then on is answered with an error)",
-                        "real WebSocket connections are not opened: the listeners are the real msgListenerV1/V2 objects, the socket writer is played by the driver (Take)",
+                        "in the hub families real WebSocket connections are not opened (the listeners are the real msgListenerV1/V2 objects, the socket writer is played by the "
+                        "driver); the end-to-end stage (Inbucket.tla) uses real WebSocket v2 connections to the assembled server, sequentially",
                         "end-to-end behaviours (extension host) are sequential: the hand-over goroutine has no defined order relative to operations the driver queues directly"]
